@@ -3,15 +3,23 @@ package main
 // Additions of the fifth round to the per-property explanations (this file is initialised after zz_round4.go).
 func init() {
 	add := map[string]string{
-		"C01": " (R01.5) Clone* methods return a value built from the copied bytes only - no slice or table view of the source reaches the result (taint analysis); (R13.9) the recursive parser reports the size result of its decoder; (R13.3, R10.4) probe/decoder size agreement also counts here: field access and raw copies cut values with the probe; (R12.10) no stale buffer view in the writer.",
+		"C01": " (R01.5) Clone* methods return a value built from the copied bytes only - no slice or table view of the source reaches the result (taint analysis); (R13.9) the recursive parser reports the size result of its decoder; (R13.3, R10.4) probe/decoder size agreement also counts here: field access and raw copies cut values with the probe; (R12.10) no stale buffer view in the writer. (R13.10) a container opened from b keeps exactly b[len(b)-size:].",
 		"C05": " (R15.7) builtin type names: syntax.GetKind and Kind.String agree on exactly the non element-based kinds, the name is compared unchanged; (R08.2) the big-table predicate looks at every entry.",
 		"C08": " (R18.3) a pooled writer is not touched after it was released: bytes never depend on another owner's writes.",
-		"C09": " (R09.5) the probing loops of clientConns.roundRobin visit len(conns) indices in total (linear trip-count sum).",
+		"C09": " (R09.5) the probing loops of clientConns.roundRobin visit len(conns) indices in total (linear trip-count sum). (R19.8) a failed connect attempt ends without a retry only behind a test of the context of the routine, the closed flag or the connect mode; (R19.9) the connecting slot is cleared or replaced on every return of connect1.",
 		"C12": " (R12.10) a view obtained from buf.Bytes() is not used after a later call that may grow the same buffer.",
-		"C13": " (R13.9) types.ParseValue reports, on every successful path, the size result (the int before the error) of the decoder applied to its whole input.",
+		"C13": " (R13.9) types.ParseValue reports, on every successful path, the size result (the int before the error) of the decoder applied to its whole input. (R13.10) OpenMessageErr / decodeList keep exactly the bytes of the value.",
 		"C14": " (R14.19) recursive boolean searches of the model leave their loop only with `return true`; (R14.20) a model.Context does not outlive one compilation unless failed registrations are undone; (R15.7) builtin type names.",
 		"C15": " (R15.7) builtin type names are recognised exactly: GetKind <-> Kind.String over KindAny..KindAnyMessage, everything else is a reference.",
 		"C17": " Boxing of an argument written at a call site is judged at the call site even when the callee was inlined there.",
+		"C03": " (R07.9) no mutex held by a blocked Send is taken on the window-update path; (R03.8) every field of the shared channel state is immutable after construction or of a synchronised type.",
+		"C04": " (R09.1) blocking waits of the send path have a teardown case: a Send blocked on flow control returns when the handler has answered and closed the channel.",
+		"C06": " (R06.8) channel.release() runs only behind acquire() or a successful tryAcquire().",
+		"C07": " (R07.9) the window update never waits for the lock of the sender.",
+		"C11": " (R02.2) parsing recursion descends on every frame: a hostile frame cannot overflow the stack of the process; (R10.1) the integer decoders used for protocol versions and frame codes reject out-of-range values instead of wrapping.",
+		"C16": " (R01.4) an early `absent` answer of the tag lookup implies an empty table; (R13.10) nested containers are opened on their own bytes.",
+		"C18": " (R18.6) a handle is detached from its pooled state (Swap(nil) or field = nil) where the state is released; (R03.8).",
+		"C19": " (R19.8, R19.9) retry and slot discipline of connect1; (R19.2d) the connection set is re-read under client.mu before Connected is cleared and before a dial starts.",
 	}
 	for k, v := range add {
 		if p := props[k]; p != nil {
